@@ -247,6 +247,8 @@ def addon_parts(edzed, spec, kw):
 def build_block(edzed, spec, hist, probes):
     kind = spec['kind']
     kw = {}
+    if spec.get('persistent'):
+        kw['persistent'] = True
     for st in spec['watch']:
         kw[f"on_enter_{st}"] = edzed.Event(probes, 'enter')
         kw[f"on_exit_{st}"] = edzed.Event(probes, 'exit')
@@ -299,6 +301,8 @@ def run_case(case, ctx):
     state = {'depth': 0}
     clock_holder = {}
 
+    storage = {}
+
     def build():
         class Probes(edzed.SBlock):
             def init_regular(self):
@@ -328,7 +332,23 @@ def run_case(case, ctx):
                     super().start()
                     raise RuntimeError('start fault')
             BadStart('bad')
+        if case.get('double_stop'):
+            class SlowStop(edzed.AddonAsync, edzed.SBlock):
+                def init_regular(self):
+                    self.set_output(0)
+
+                async def stop_async(self):
+                    await asyncio.sleep(0.5)
+            SlowStop('slowstop', stop_timeout=3)
         fsm = build_block(edzed, spec, hist, probes)
+        rst = case.get('restore')
+        if rst:
+            # the block is restored from saved state: in a timed state, its timer due later
+            wall0 = (BASE - _dt.datetime(1970, 1, 1)).total_seconds()
+            sdata = {'input': rst['value']} if spec['kind'] == 'inputexp' else {}
+            storage[fsm.key] = [rst['state'], wall0 + rst['remaining'], sdata]
+            storage['edzed-stop-time'] = wall0 - 10.0
+            ctx.count('restored_with_running_timer')
         orig = fsm.event
 
         def owned(h):
@@ -425,6 +445,13 @@ def run_case(case, ctx):
         state['alive_before_stop'] = sim.alive()
         state['live_before_stop'] = state['live']()
         hist.log('stop_called')
+        if case.get('double_stop'):
+            # the stop is requested, and while the block with asynchronous clean-up is being
+            # stopped another (now irrelevant) error is reported to the simulator
+            ctx.count('error_reported_during_cleanup')
+            sim.circuit.abort(asyncio.CancelledError('vf: stop requested'))
+            await asyncio.sleep(0.1)
+            sim.circuit.abort(RuntimeError('vf: a late error report'))
 
     def setup(loop):
         hist.loop = loop
@@ -438,6 +465,7 @@ def run_case(case, ctx):
 
     try:
         out = harness.run_sim(build, drive, setup=setup,
+                              storage=storage if case.get('restore') else None,
                               drain=30.0 if case.get('failed_start') else 86400.0,
                               drain_budget=2000)
     finally:
@@ -476,11 +504,19 @@ def judge(case, hist, state, ctx):
                 f"block; timers left after the end: {state['own_after_stop'][:5]} {state['live_after_stop'][:5]}")
         return True
     model = TModel(spec)
+    rst = case.get('restore')
+    if rst:
+        model.state = rst['state']
+        model.initialized = True
+        model.armed = (rst['state'], 1000.0 + rst['remaining'], model.timed[rst['state']][1])
+        if spec['kind'] == 'inputexp':
+            model.value = rst['value']
     E = hist.entries
     nontrivial = False
     # split the history into top-level event entries
     i = 0
     pending_error = None
+    pending_error_seq = None
     stop_seq = next((e[0] for e in E if e[2] == 'stop_called'), len(E))
     tops = []
     cur = None
@@ -557,6 +593,7 @@ def judge(case, hist, state, ctx):
                 raise core.Violation('missing-error',
                                      f"{where}: {ev!r} expected EdzedCircuitError ({exp_exc}), got {got!r}")
             pending_error = exp_exc
+            pending_error_seq = seq
             continue
         if got != ('ret', exp_ret):
             raise core.Violation('wrong-return-value',
@@ -648,7 +685,9 @@ def judge(case, hist, state, ctx):
         return True
     # ---- end of the scenario ----
     if pending_error is not None:
-        if state['alive_before_stop']:
+        # (an error that happened after the stop request, during the clean-up of other blocks,
+        # could not have stopped the simulation earlier)
+        if state['alive_before_stop'] and pending_error_seq < stop_seq:
             raise core.Violation('error-did-not-stop-simulation', f"{where}: {pending_error}")
     else:
         if not state['alive_before_stop']:
@@ -683,7 +722,7 @@ def judge(case, hist, state, ctx):
 
 DURS = [0, -1, 1.0, 2.5, 'INF', '1m', '0.5s', '0m2s', '1.5', '0h0m0.25s', 0.75]
 EV_DURS = [None, None, None, 0, 0.25, '0.5s', 'INF', 3.0, -2, '0m2s']
-AIMS = ['-us', '-ns', 'at', '+ns', '+us', 'mid', 'after', 'at', '-ns', '+ns']
+AIMS = ['-us', '-ns', 'at', '+ns', '+us', 'mid', 'after', 'at', '-ns', '+ns', 'at', 'at']
 
 
 def random_generic(rng):
@@ -820,6 +859,16 @@ def gen(ctx):
             spec, stims = random_inputexp(rng)
         case = {'spec': spec, 'stims': stims,
                 'tail': rng.choice(['after', 'pending', 'pending', 'long'])}
+        if rng.random() < 0.1:
+            case['double_stop'] = True
+        if rng.random() < 0.12 and not case.get('failed_start'):
+            tstates = [st for st, (d, _e) in spec['timers'].items()]
+            if spec['kind'] == 'timer':
+                tstates = ['on', 'off']
+            if tstates:
+                spec['persistent'] = True
+                case['restore'] = {'state': rng.choice(tstates),
+                                   'remaining': rng.choice([0.5, 2.0, 5.0]), 'value': 'restored'}
         if spec['kind'] == 'generic' and rng.random() < 0.25:
             spec['addon'] = rng.choice(['plain', 'stop_async', 'stop_async_disabled'])
         if rng.random() < 0.04:
